@@ -175,6 +175,9 @@ def run(ctx):
     judge(ctx, pairs + randoms, rnd)
     ctx.evaluations += len(pairs) + len(randoms)
     ctx.exhaustive = True
+    # raw writes inside library sessions (between saves, loads, accessor edits and section replacements): Session.tla
+    from .. import session
+    session.run(ctx, 'edit', nseq=(32 if ctx.quick else 400))
     # canaries (hand-written observations)
     ok = {'ops': [{'addr': 8190, 'len': 4, 'raised': False, 'sizes': [8192, 4096, 256, 256, 4352], 'runs': [[8190, 8194]],
                    'vals': [[8190 + k, D(1, 8190, k)] for k in range(4)]}]}
